@@ -110,11 +110,20 @@ PROPS = {
         quick=[S('defer', ops=['start', 'pe:1', 'pe:2', 'pe:3', 'pe:4', 'pe:5', 'eq:3', 'xq'], qbound=3),
                S('block', ops=['start', 'pe:1', 'pe:2', 'pe:3', 'pe:4', 'pe:5', 'pe:6'], qbound=2),
                S('defer2', qbound=3),
-               S('deferhN', qbound=2), S('deferhA', qbound=2), S('deferhS', qbound=2)],
+               S('deferhN', qbound=2), S('deferhA', qbound=2), S('deferhS', qbound=2),
+               # reachable states next to the wrap of back's deferral sequence counter (a char): 126 handled events first
+               S('defer', cfgs=['b', 'bq', 'b11'], ops=['start', 'pe:1', 'pe:2', 'pe:3', 'pe:5'], qbound=4, warm='126:5'),
+               S('defer', cfgs=['bc'], ops=['start', 'pe:1', 'pe:2', 'pe:3', 'pe:5'], qbound=4, warm='125:5')],
         thorough=[S('defer', ops=['start', 'stop', 'pe:1', 'pe:2', 'pe:3', 'pe:4', 'pe:5', 'eq:3', 'eq:1', 'xq', 'xs'], qbound=4),
                   S('defer', ops=['start', 'pe:1', 'pe:2', 'pe:3', 'pe:4', 'pe:5'], qbound=3, submits=1),
                   S('block', ops=['start', 'pe:1', 'pe:2', 'pe:3', 'pe:4', 'pe:5', 'pe:6', 'eq:4', 'xq'], qbound=3),
                   S('defer2', ops=pe_all('defer2') + ['eq:1', 'xq'], qbound=4),
+                  S('defer', cfgs=['b', 'bc', 'bq', 'b11'], ops=['start', 'pe:1', 'pe:2', 'pe:3', 'pe:4', 'pe:5'], qbound=4, warm='124:5'),
+                  S('defer', cfgs=['b', 'bc', 'bq', 'b11'], ops=['start', 'pe:1', 'pe:2', 'pe:3', 'pe:4', 'pe:5'], qbound=4, warm='125:5'),
+                  S('defer', cfgs=['b', 'bc', 'bq', 'b11'], ops=['start', 'pe:1', 'pe:2', 'pe:3', 'pe:4', 'pe:5'], qbound=4, warm='126:5'),
+                  S('defer', cfgs=['b', 'bc', 'bq', 'b11'], ops=['start', 'pe:1', 'pe:2', 'pe:3', 'pe:4', 'pe:5'], qbound=4, warm='127:5'),
+                  S('defer', cfgs=['m', 'mc'], ops=['start', 'pe:1', 'pe:2', 'pe:3', 'pe:5'], qbound=3, warm='65533:5', max_exec=400),
+                  S('defer', cfgs=['m', 'mf'], ops=['start', 'pe:1', 'pe:2', 'pe:3', 'pe:5'], qbound=3, warm='65534:5', max_exec=400),
                   S('deferhN', ops=pe_all('deferhN') + ['eq:1', 'xq'], qbound=3), S('deferhA', ops=pe_all('deferhA') + ['eq:1', 'xq'], qbound=3),
                   S('deferhS', ops=pe_all('deferhS') + ['eq:1', 'xq'], qbound=3)],
         rule='all histories over two deferred event types, state-changing events, a handled no-op event and enqueue_event with at most 3 deferred '
